@@ -122,3 +122,44 @@ Proof.
   intros E. unfold aht_reset. destruct (N.ltb_spec (a_size a) n); [lia|].
   destruct (N.eqb_spec (a_size a) n); [reflexivity|contradiction].
 Qed.
+
+Lemma aht_sync_AInv thld a :
+  AInv thld a ->
+  exists a', aht_sync a = Ok a' /\ AInv thld a' /\ a_size a' = a_size a /\
+             a_latest a' = a_size a /\ a_cnt a' = 0 /\ f_offset (a_d a') = f_offset (a_d a) /\
+             len (durable (a_d a)) <= len (durable (a_d a')).
+Proof.
+  intros (Wd & Wc & Hs & Hc & H32 & Hp & Hb & H12 & Hdur).
+  destruct (aht_sync_ok a (a_size a)) as (a' & Ea & R1 & R2 & R3 & R4 & R5 & R6 & R7 & R8 & R9 & R10 & R11); auto.
+  exists a'. split; [exact Ea|]. split; [|repeat split; auto].
+  unfold AInv. rewrite R1, R2, R3, R6. repeat split; auto; lia.
+Qed.
+
+(* sizes, without any invariant *)
+Lemma aht_sync_size a a' : aht_sync a = Ok a' -> a_size a' = a_size a.
+Proof.
+  unfold aht_sync. destruct (a_cnt a =? 0); [congruence|].
+  destruct (f_setoffset (a_c a) (12 * a_latest a)); [|discriminate].
+  intros E. assert (Q: forall x y, @Ok aht x = Ok y -> x = y) by (intros ? ? Q; congruence).
+  apply Q in E. subst a'. reflexivity.
+Qed.
+
+Lemma aht_reset_size a n a' : aht_reset a n = Ok a' -> a_size a' = n.
+Proof.
+  unfold aht_reset. destruct (N.ltb_spec (a_size a) n); [discriminate|].
+  destruct (N.eqb_spec (a_size a) n); [congruence|].
+  intros E. apply bind_ok in E as (a1 & _ & E).
+  assert (Q: forall x y, @Ok aht x = Ok y -> x = y) by (intros ? ? Q; congruence).
+  apply Q in E. subst a'. reflexivity.
+Qed.
+
+Lemma aht_append_size thld a leaf a' : aht_append thld a leaf = Ok a' -> a_size a' = a_size a + 1.
+Proof.
+  unfold aht_append. destruct (f_setoffset (a_d a) (32 * a_size a)); [|discriminate].
+  intros E. apply bind_ok in E as (a2 & E2 & E).
+  assert (Q: forall x y, @Ok aht x = Ok y -> x = y) by (intros ? ? Q; congruence).
+  apply Q in E. subst a'. cbn [a_size].
+  destruct (_ =? thld).
+  - apply aht_sync_size in E2. rewrite E2. reflexivity.
+  - apply Q in E2. subst a2. reflexivity.
+Qed.
